@@ -497,7 +497,7 @@ func genModes(g *h.Gen) {
 	for len(rot) < 6 {
 		rot = append(rot, h.Pick(r, ents))
 	}
-	n := g.N(700, 45*500)
+	n := g.N(2400, 45*1500)
 	for i := 0; i < n; i++ {
 		var name string
 		switch {
@@ -556,13 +556,15 @@ func genModes(g *h.Gen) {
 				ops = append(ops, "N")
 			case k < 84:
 				ops = append(ops, "Z")
-			case k < 92:
+			case k < 93:
 				if !finished { // Resume after Fini is outside the property's histories (see lib/props/C04.py)
 					ops = append(ops, "R")
 				}
 			case k < 94:
-				ops = append(ops, "Q")
-				finished = true
+				if j > nops/2 {
+					ops = append(ops, "Q")
+					finished = true
+				}
 			case k < 97:
 				ops = append(ops, "B")
 			default:
